@@ -171,6 +171,9 @@ RESETS = [
     ('RUN', 'run', 'direct', 'RUN'),
     ('RUN 1000', 'run', 'direct', 'RUN 1000'),
     ('RUN 1000 (in program)', 'run', 'inprog', 'RUN 1000'),
+    # RUN to a line that does not exist: everything is reset, then Undefined line number is reported
+    ('RUN 7777 (missing line)', 'run', 'direct', 'RUN 7777', 8),
+    ('RUN 7777 (missing line, in program)', 'run', 'inprog', 'RUN 7777', 8),
     ('CLEAR', 'clear', 'direct', 'CLEAR'),
     ('CLEAR (in program)', 'clear', 'inprog', 'CLEAR:STOP'),
     ('CLEAR ,32768', 'clear', 'direct', 'CLEAR ,32768!'),
@@ -417,7 +420,8 @@ def _observe_reset(c, cls, viol, has_program, builders):
 
 
 def run_reset_case(part, builders, ri):
-    label, rcls, where, stmt = RESETS[ri]
+    label, rcls, where, stmt = RESETS[ri][:4]
+    okerr = RESETS[ri][4] if len(RESETS[ri]) > 4 else None
     case = {'builders': list(builders), 'reset': ri}
     stop = 'STOP' if where == 'direct' else stmt
     c = Case()
@@ -436,12 +440,13 @@ def run_reset_case(part, builders, ri):
             if r.exc is not None:
                 viol('%s/host-exception/%s' % (rcls, H.exc_key(r.exc)), repr(r.exc))
                 return 'exc'
-            if r.err is not None:
-                viol('%s/reset-statement-error-%s' % (rcls, r.err), '%r failed' % stmt)
+            if r.err != okerr:
+                viol('%s/reset-statement-error-%s' % (rcls, r.err), '%r gave error %r, expected %r' % (stmt, r.err, okerr))
                 return 'err'
         else:
-            if r.err is not None:
-                viol('%s/reset-statement-error-%s' % (rcls, r.err), '%r in program failed: %r' % (stmt, r.out[:60]))
+            if r.err != okerr or (okerr is not None and r.out.count(b'TRAPPED') > (1 if 'eh' in builders else 0)):
+                viol('%s/reset-statement-error-%s' % (rcls, r.err), '%r in program gave error %r (%r), expected %r untrapped' % (
+                    stmt, r.err, r.out[:60], okerr))
                 return 'err'
         has_program = rcls != 'new'
         _observe_reset(c, rcls, viol, has_program, builders)
